@@ -121,3 +121,145 @@ Section Spec.
     - discriminate.
   Qed.
 End Spec.
+
+(* ------------------------------------------------------------------------------------------
+   Several MsgEthereumTx in one Cosmos tx: per-message and per-signer accounting *)
+
+Record bmeas := { bm_env : env; bm_msgs : list bmsg; bm_out : boutcome; bm_before : bank; bm_after : bank }.
+
+Fixpoint dedup (l : list nat) : list nat :=
+  match l with
+  | [] => []
+  | x :: r => if existsb (Nat.eqb x) r then dedup r else x :: dedup r
+  end.
+
+Definition signers (ms : list bmsg) : list nat := dedup (map fst ms).
+Definition msgs_of (s : nat) (ms : list bmsg) : list bmsg := filter (fun m => Nat.eqb (fst m) s) ms.
+
+Definition price_of (e : env) (m : bmsg) : Z := eff_price (t_fee (snd m)) (e_base_fee e).
+
+Fixpoint sum_prepay (e : env) (ms : list bmsg) : Z :=
+  match ms with [] => 0 | m :: r => prepay (t_gas (snd m)) (price_of e m) + sum_prepay e r end.
+
+Fixpoint sum_used (e : env) (ms : list bmsg) : Z :=
+  match ms with [] => 0 | m :: r => t_gas_used (snd m) * price_of e m + sum_used e r end.
+
+(** unibi a signer sent as top-level value in its messages that ran to completion *)
+Fixpoint values_sent (s : nat) (mo : list (bmsg * outcome)) : Z :=
+  match mo with
+  | [] => 0
+  | (m, o) :: r =>
+      (if Nat.eqb (fst m) s then match o with Ok => to_native (t_value (snd m)) | _ => 0 end else 0) + values_sent s r
+  end.
+
+(** the account is neither the callee of a message nor named in any effect script *)
+Definition plain (a : nat) (ms : list bmsg) : bool := forallb (fun m => untouched a (snd m)) ms.
+
+Definition is_stuck (o : outcome) : bool := match o with Stuck => true | _ => false end.
+
+Section SpecBundle.
+  Variable m : bmeas.
+  Let e := bm_env m.
+  Let ms := bm_msgs m.
+  Let F := e_collector e.
+  Let U := e_universe e.
+  Definition bdelta (a : nat) : Z := bal (bm_after m) a - bal (bm_before m) a.
+  Definition bdsupply : Z := supply (bm_after m) - supply (bm_before m).
+  Definition count_msgs (l : list bmsg) : Z := Z.of_nat (length l).
+
+  (** gas payment of signer [s]: what it lost beyond the values it sent *)
+  Definition pay (os : list outcome) (s : nat) : Z := - bdelta s - values_sent s (combine ms os).
+
+  Definition signer_ok (os : list outcome) (s : nat) : Prop :=
+    let mine := msgs_of s ms in
+    0 <= pay os s <= sum_prepay e mine /\
+    WEI * pay os s - count_msgs mine * WEI < sum_used e mine < WEI * pay os s + count_msgs mine * WEI.
+
+  Fixpoint sum_pay (os : list outcome) (l : list nat) : Z :=
+    match l with [] => 0 | s :: r => pay os s + sum_pay os r end.
+
+  Definition PB : Prop :=
+    bdsupply = sumU bdelta U /\ bdsupply <= 0 /\
+    match bm_out m with
+    | BRejected => (forall a, In a U -> bdelta a = 0) /\ bdsupply = 0
+    | BMsgErr =>
+        (* every signer has prepaid its own messages, nothing else happened *)
+        plain F ms = true ->
+        (forall s, In s (signers ms) -> bdelta s = - sum_prepay e (msgs_of s ms)) /\
+        bdelta F = sum_prepay e ms /\
+        (forall a, In a U -> ~ In a (signers ms) -> a <> F -> bdelta a = 0) /\ bdsupply = 0
+    | BDone os =>
+        length os = length ms /\ existsb is_stuck os = false /\
+        (* each signer pays for ITS messages: within one unibi per message of gasUsed x price, never
+           negative, never more than its own prepayments *)
+        (forall s, In s (signers ms) -> plain s ms = true -> signer_ok os s) /\
+        (* the collector's gain is the sum of the signers' payments *)
+        (plain F ms = true -> forallb (fun s => plain s ms) (signers ms) = true ->
+         bdelta F = sum_pay os (signers ms)) /\
+        (forallb (fun x => whole_unibi (snd x)) ms = true -> bdsupply = 0)
+    end.
+
+  Definition signer_okb (os : list outcome) (s : nat) : bool :=
+    let mine := msgs_of s ms in
+    (0 <=? pay os s) && (pay os s <=? sum_prepay e mine) &&
+    (WEI * pay os s - count_msgs mine * WEI <? sum_used e mine) &&
+    (sum_used e mine <? WEI * pay os s + count_msgs mine * WEI).
+
+  Definition PBb : bool :=
+    (bdsupply =? sumU bdelta U) && (bdsupply <=? 0) &&
+    match bm_out m with
+    | BRejected => forallb (fun a => bdelta a =? 0) U && (bdsupply =? 0)
+    | BMsgErr =>
+        negb (plain F ms) ||
+        (forallb (fun s => bdelta s =? - sum_prepay e (msgs_of s ms)) (signers ms) &&
+         (bdelta F =? sum_prepay e ms) &&
+         forallb (fun a => existsb (Nat.eqb a) (signers ms) || Nat.eqb a F || (bdelta a =? 0)) U &&
+         (bdsupply =? 0))
+    | BDone os =>
+        Nat.eqb (length os) (length ms) && negb (existsb is_stuck os) &&
+        forallb (fun s => negb (plain s ms) || signer_okb os s) (signers ms) &&
+        (negb (plain F ms) || negb (forallb (fun s => plain s ms) (signers ms)) ||
+         (bdelta F =? sum_pay os (signers ms))) &&
+        (negb (forallb (fun x => whole_unibi (snd x)) ms) || (bdsupply =? 0))
+    end.
+
+  Lemma existsb_eqb_In a l : existsb (Nat.eqb a) l = false -> ~ In a l.
+  Proof.
+    intros H Hin. assert (existsb (Nat.eqb a) l = true) by (apply existsb_exists; exists a; split; auto; apply Nat.eqb_refl).
+    congruence.
+  Qed.
+
+  Lemma signer_okb_sound os s : signer_okb os s = true -> signer_ok os s.
+  Proof.
+    unfold signer_okb, signer_ok. cbv zeta. intro H.
+    apply andb_true_iff in H as [H H4]. apply andb_true_iff in H as [H H3]. apply andb_true_iff in H as [H1 H2].
+    apply Z.leb_le in H1. apply Z.leb_le in H2. apply Z.ltb_lt in H3. apply Z.ltb_lt in H4. auto.
+  Qed.
+
+  Lemma PBb_sound : PBb = true -> PB.
+  Proof.
+    unfold PBb, PB. intro H.
+    apply andb_true_iff in H as [H H3]. apply andb_true_iff in H as [H1 H2].
+    apply Z.eqb_eq in H1. apply Z.leb_le in H2. split; [exact H1|]. split; [exact H2|].
+    destruct (bm_out m) as [| |os].
+    - apply andb_true_iff in H3 as [Ha Hb]. apply Z.eqb_eq in Hb. split; [|exact Hb].
+      intros a Ha'. rewrite forallb_forall in Ha. apply Z.eqb_eq. auto.
+    - intro Hp. fold e ms F in Hp. rewrite Hp in H3. cbn [negb orb] in H3.
+      apply andb_true_iff in H3 as [H3 Hd]. apply andb_true_iff in H3 as [H3 Hc]. apply andb_true_iff in H3 as [Ha Hb].
+      apply Z.eqb_eq in Hb. apply Z.eqb_eq in Hd.
+      split; [|split; [exact Hb|split; [|exact Hd]]].
+      + intros s Hs. rewrite forallb_forall in Ha. apply Z.eqb_eq. auto.
+      + intros a Ha' Hns HaF. rewrite forallb_forall in Hc. specialize (Hc a Ha').
+        apply orb_true_iff in Hc as [Hc|Hc]; [|apply Z.eqb_eq; exact Hc].
+        apply orb_true_iff in Hc as [Hc|Hc].
+        * exfalso. apply Hns. apply existsb_exists in Hc as [x [Hx He]]. apply Nat.eqb_eq in He. subst. exact Hx.
+        * apply Nat.eqb_eq in Hc. contradiction.
+    - apply andb_true_iff in H3 as [H3 Hw]. apply andb_true_iff in H3 as [H3 Hf]. apply andb_true_iff in H3 as [H3 Hs].
+      apply andb_true_iff in H3 as [Hl Hst]. apply Nat.eqb_eq in Hl. apply negb_true_iff in Hst.
+      split; [exact Hl|]. split; [exact Hst|]. split; [|split].
+      + intros s Hin Hp. rewrite forallb_forall in Hs. specialize (Hs s Hin). fold e ms in Hp. rewrite Hp in Hs.
+        cbn [negb orb] in Hs. apply signer_okb_sound. exact Hs.
+      + intros Hp Hall. fold e ms F in Hp. rewrite Hp, Hall in Hf. cbn [negb orb] in Hf. apply Z.eqb_eq. exact Hf.
+      + intro Hall. rewrite Hall in Hw. cbn [negb orb] in Hw. apply Z.eqb_eq. exact Hw.
+  Qed.
+End SpecBundle.
